@@ -101,21 +101,27 @@ func driveC16(c *Ctx) {
 	for i := range ptrKeys {
 		ptrKeys[i] = []int{0, 0, 0, 0, 1, 2, 3}[c.W(7)] // 0 T only; 1 T and *T; 2 *T only; 3 T, *T and **T
 	}
+	variant := make([]int, len(tsPick)) // bumped when the client replaces the entry (step kind 4)
+	fill := func(o *jsonschema.ForOptions, k int) {
+		n := tsPick[k]
+		rt := TSTypes[n]
+		kk := k + 17*variant[k]
+		if ptrKeys[k] != 2 {
+			o.TypeSchemas[rt] = overrideSchema(n, kk)
+		}
+		if ptrKeys[k] >= 1 {
+			o.TypeSchemas[reflect.PointerTo(rt)] = overrideSchema(n, kk+7)
+		}
+		if ptrKeys[k] == 3 {
+			o.TypeSchemas[reflect.PointerTo(reflect.PointerTo(rt))] = overrideSchema(n, kk+13)
+		}
+	}
 	mkOpts := func() *jsonschema.ForOptions {
 		o := &jsonschema.ForOptions{IgnoreInvalidTypes: ignore}
 		if len(tsPick) > 0 {
 			o.TypeSchemas = map[reflect.Type]*jsonschema.Schema{}
-			for k, n := range tsPick {
-				rt := TSTypes[n]
-				if ptrKeys[k] != 2 {
-					o.TypeSchemas[rt] = overrideSchema(n, k)
-				}
-				if ptrKeys[k] >= 1 {
-					o.TypeSchemas[reflect.PointerTo(rt)] = overrideSchema(n, k+7)
-				}
-				if ptrKeys[k] == 3 {
-					o.TypeSchemas[reflect.PointerTo(reflect.PointerTo(rt))] = overrideSchema(n, k+13)
-				}
+			for k := range tsPick {
+				fill(o, k)
 			}
 		}
 		return o
@@ -124,7 +130,7 @@ func driveC16(c *Ctx) {
 	nsteps := 3 + c.W(6)
 	var steps []c16step
 	for i := 0; i < nsteps; i++ {
-		steps = append(steps, c16step{Kind: []int{0, 0, 1, 2, 2, 3}[c.W(6)], A: c.W(64), B: c.W(64)})
+		steps = append(steps, c16step{Kind: []int{0, 0, 1, 2, 2, 3, 4}[c.W(7)], A: c.W(64), B: c.W(64)})
 	}
 	env := os.Getenv("JSONSCHEMAGODEBUG")
 	c.In("type %s ignore=%v typeschemas=%v pointer-keys=%v steps=%v env=%q", ct.Name, ignore, tsPick, ptrKeys, steps, env)
@@ -289,6 +295,44 @@ func driveC16(c *Ctx) {
 			if len(results) > 0 && !mutated {
 				resolveOK(results[st.A%len(results)], st.A%len(results))
 			}
+		case 4:
+			// The client reconfigures: it replaces one entry of the TypeSchemas map of the options
+			// value it keeps using (same keys, another schema) - or continues with a copy of the
+			// options value that holds a new map. From here on "the same arguments" are the new
+			// contents; a freshly built equal options value says what they mean.
+			if len(tsPick) == 0 {
+				break
+			}
+			k := st.A % len(tsPick)
+			variant[k] += 1 + st.B%3
+			if st.B%2 == 0 {
+				for kk := range tsPick { // in mkOpts' order: a name drawn twice means a later index wins
+					fill(opts, kk)
+				}
+			} else {
+				o2 := *opts
+				o2.TypeSchemas = mkOpts().TypeSchemas
+				opts = &o2
+			}
+			for rt, e := range opts.TypeSchemas {
+				for _, p := range allSchemas(e) {
+					entryPtrs[p] = "TypeSchemas[" + rt.String() + "]"
+				}
+			}
+			entryFP = fpTypeSchemas(opts.TypeSchemas)
+			var fresh *jsonschema.Schema
+			fresh, d0, _ = call(t, mkOpts())
+			if fresh != nil {
+				results = append(results, fresh)
+			}
+			s, d, _ := call(t, opts)
+			calls++
+			if d != d0 {
+				c.Fail("C16/determinism", "reconfigured-options", "step %d: after the client replaced TypeSchemas[%s] in its options value, ForType(%s) gave %.300q; freshly built options with the same contents give %.300q", si, tsPick[k], ct.Name, d, d0)
+				return
+			}
+			note(s, len(results))
+			c.Probe("options-reconfigured")
 		}
 	}
 	// one last repeat: whatever happened, the same arguments give the same schema
